@@ -127,3 +127,123 @@ def targets_escapes(tier):
 
     return [StaticCheck("robust.type_translation_error_contained", check_type_translation_escapes,
                         note="fixpoint over call sites by simple name; handlers recognised: TypeTranslationError, Exception, BaseException, bare except")]
+
+
+# ---- daemon update path, the 'unreached modules are deleted' scan of
+# Server.fine_grained_increment_follow_imports: one generic original module.  `orig_modules` was taken before the
+# update ran, so a module may have left the graph since (a module with a remembered blocker that was deleted):
+# no exception escapes for any module id, and a module is scheduled for deletion exactly when it is still in
+# the graph and was not reached.
+
+
+class FakeStateR:
+    path: str
+
+
+def setup_unreached(I):
+    mid = I.make(TStr(), "module_id")
+    in_graph = I.ctx.choose(2, "module-still-in-the-graph?")
+    st = I.new_object(FakeStateR)
+    st.fields["path"] = I.make(TStr(), "path")
+    graph = SDict([(mid, st)]) if in_graph else SDict([])
+    seen = I.make(TSet(TStr()), "seen")
+    to_delete = SList([])
+    return {"args": [], "locals": {"module_id": mid, "graph": graph, "seen": seen, "to_delete": to_delete, "orig_modules": SList([mid])},
+            "mid": mid, "in_graph": in_graph, "seen": seen, "to_delete": to_delete, "st": st}
+
+
+def ens_unreached(I, env, res):
+    reached = z3.Select(env["seen"].t, env["mid"].t)
+    n = len(env["to_delete"].items)
+    if not env["in_graph"]:
+        return z3.BoolVal(n == 0)
+    if n == 0:
+        return reached
+    if n != 1:
+        return z3.BoolVal(False)
+    it = env["to_delete"].items[0]
+    return z3.And(z3.Not(reached), z3.BoolVal(isinstance(it, STuple) and it.items[0] is env["mid"] and it.items[1] is env["st"].fields["path"]))
+
+
+def targets_daemon(tier):
+    return [Target("robust.daemon.unreached_modules_scan", "mypy.dmypy_server:Server.fine_grained_increment_follow_imports", setup_unreached,
+                   loop_body=("for module_id in orig_modules", None), ensures=[("deleted-iff-still-in-graph-and-not-reached", ens_unreached)], raises=(),
+                   overrides={}, field_types={}, note="one generic module of the pre-update module list; it may have left the graph in the meantime")]
+
+
+# ---- daemon update path, update.update_module_isolated when loading the changed module hits a blocker:
+# 'the daemon keeps serving and later results are unaffected' -- the build state is put back: every module
+# that load_graph had brought in is removed from the graph and from manager.modules again, and the changed
+# module gets its previous State / tree back (or is absent again if it was new).
+
+
+class FakeManagerU:
+    modules: dict
+
+
+class FakeErr(Exception):
+    pass
+
+
+def setup_blocked(I):
+    import mypy.build as B
+
+    module = I.make(TStr(), "module")
+    new_id = I.make(TStr(), "new_module_id")
+    I.ctx.assume(new_id.t != module.t)
+    had_state = I.ctx.choose(2, "module-was-in-the-graph?")
+    orig_state = I.new_object(B.State) if had_state else NONE
+    orig_tree = I.new_object(__import__("mypy.nodes", fromlist=["x"]).MypyFile) if had_state else NONE
+    graph = SDict([])  # the region starts after `del graph[module]` has not yet run: put the module back first
+    if had_state:
+        graph.entries.append((module, orig_state))
+    mgr = I.new_object(FakeManagerU)
+    mgr.fields["modules"] = SDict([(module, orig_tree)] if had_state else [])
+    I.ctx.ghost["blocked"] = {"new_id": new_id, "graph": graph, "mgr": mgr}
+    return {"args": [], "locals": {"module": module, "path": I.make(TStr(), "path"), "manager": mgr, "graph": graph, "sources": SOpaque("sources"),
+                                   "previous_modules": SOpaque("previous_modules"), "followed": I.make(TBool(), "followed")},
+            "module": module, "new_id": new_id, "graph": graph, "mgr": mgr, "orig_state": orig_state, "orig_tree": orig_tree, "had_state": had_state}
+
+
+def load_graph_blocks(I, args, kwargs):
+    """contract of build.load_graph on the failing path: it has entered some new modules (one generic one
+    here) into the graph, manager.modules and new_modules, then raised a CompileError naming the blocker"""
+    import mypy.build as B
+    from mypy.errors import CompileError
+    from pyvc.interp import PyExc
+
+    g = I.ctx.ghost["blocked"]
+    ns = I.new_object(B.State)
+    ns.fields["id"] = g["new_id"]
+    graph, new_modules = args[2], args[3]
+    graph.entries.append((g["new_id"], ns))
+    g["mgr"].fields["modules"].entries.append((g["new_id"], SOpaque("new_tree")))
+    new_modules.items.append(ns)
+    err = I.new_object(CompileError)
+    err.fields["module_with_blocker"] = I.make(TStr(), "module_with_blocker")
+    I.ctx.assume(z3.Length(err.fields["module_with_blocker"].t) > 0)
+    err.fields["messages"] = SList([])
+    raise PyExc(CompileError, err, "blocker", "load_graph")
+
+
+def ens_blocked(I, env, res):
+    graph, modules = env["graph"], env["mgr"].fields["modules"]
+    nid, mod = env["new_id"], env["module"]
+
+    def has(d, key):
+        return [v for k, v in d.entries if k is key]
+
+    gone = not has(graph, nid) and not has(modules, nid)
+    if env["had_state"]:
+        back = has(graph, mod) == [env["orig_state"]] and has(modules, mod) == [env["orig_tree"]]
+    else:
+        back = not has(graph, mod) and not has(modules, mod)
+    return z3.BoolVal(bool(gone and back))
+
+
+def targets_blocked(tier):
+    ov = {"mypy.build:load_graph": load_graph_blocks, "mypy.server.update:load_graph": load_graph_blocks,
+          "mypy.server.update:BlockedUpdate": lambda I, a, k: SOpaque("BlockedUpdate")}
+    return [Target("robust.daemon.blocked_update_restores_state", "mypy.server.update:update_module_isolated", setup_blocked, start_at="orig_module = module",
+                   ensures=[("graph-and-modules-restored-after-a-blocked-update", ens_blocked)], raises=(), overrides=ov, field_types={},
+                   note="region from the snapshot of the old state to the BlockedUpdate return; load_graph by contract (one generic module brought in, then a blocker)")]
